@@ -13,9 +13,7 @@ PY = "/venv/bin/python"
 
 NOT_CLAIMED = {}
 # properties whose machinery exists but is being adapted right now: not claimed until it is green again
-HOLD = {"C12": "not claimed at the moment: /repo commit ba7c02c repaired defect F12 (metadata dict captured by reference by the "
-               "asynchronous cassette); the model, theorem C12_async_refines_sync and the probe stream are being adapted to the "
-               "repaired code; nothing is asserted until the check is green again"}
+HOLD = {}
 DEFAULT_REASON = ("not claimed: the Coq model, theorems and correspondence check for this property are not built yet "
                   "(DESIGN.md section 6 describes the plan); nothing is asserted about it")
 
